@@ -54,19 +54,20 @@ PROPS = {
         "gen": ["EventSchema", "EffectOrder"],
     },
     "C04": {
-        "level_text": "Lean 4 theorems over an executable model of the tail-scanning read paths (provider cursor status, context selection status): truth answers as functions of the thread's frames, the bounded tail scan, the doubling-window loop and validate-then-fall-back, with the loop's features as switches so the code before and after the repairs can both be run — for EVERY cache content, limit, first window and maximum the loops end within max - w0 + 1 windows (FALSE before the repair: witness with a thread longer than the largest window); with a cache holding what it should the fast path equals the truth answer for every thread and window schedule (FALSE before the repair: duplicated decisions, partial cursor answers); a suffix-only cache file gives a wrong answer now and would be harmless with a head check (proved); a rolled-back (prefix-only) file is undetectable even then (witness). The loop shapes, fall-back conditions and head check are REGENERATED from the current source on every run and the theorems are stated for the regenerated shape (genShape = current by decide). Tied by the property's own observation on every run: thread histories built through the store API (short; fat: sidecars beyond the first and the largest tail window; thorough: > 10^4 frames), per history an unfaulted round, an index-loss round and three fault rounds (delete / truncate at a byte / garbage / roll back to a saved earlier version on any cache file, half followed by a restart and further appends); nine read capabilities — replay, cut points, compaction status, cursor status, selection status, the context compiled for a run, branch and handoff cut, default-thread recovery — evaluated with caches as found vs continuity_streams/ removed under a 20 s cap; every difference shrunk to a 1-minimal fault set; cursor and selection status also compared with the Lean specification. Two defect groups found and repaired (non-terminating / duplicating / partial tail scans; default thread after index loss), two recorded as known findings (stale prefix and suffix-only cache files pass the validators).",
-        "level_note": "Lean kernel; windows are counted in frames in the model (byte and event budgets are both monotone; theorems quantify over every first window and maximum); only the two tail-scanning status queries are modelled — replay, cut points, compaction status, compiled context and the lineage cuts are covered by the as-found vs truth comparison (and by C08/C09/C10 on their truth semantics), not by a model of their seven cache formats; ripx recognises the loop shape textually and fails closed.",
+        "level_text": "Lean 4 theorems over an executable model of the tail-scanning read paths (provider cursor status, context selection status): truth answers as functions of the thread's frames, the bounded tail scan, the doubling-window loop and validate-then-fall-back, with the loop's features as switches so the code before and after the repairs can both be run — for EVERY cache content, limit, first window and maximum the loops end within max - w0 + 1 windows (FALSE before the repair: witness with a thread longer than the largest window); with a cache holding what it should the fast path equals the truth answer for every thread and window schedule (FALSE before the repair: duplicated decisions, partial cursor answers); a suffix-only cache file gave a wrong answer before scan_tail's head check and is harmless with it, for every valid thread, every non-empty suffix and every window schedule (proved for the shape regenerated from the current source); a rolled-back (prefix-only) file is undetectable even then (witness). A second model covers the windowed read of the full sidecar through its seek index at byte-offset level (loader, rebuild, validation, best entry, boundary scan, backward header scan with a budget, forward scan): for EVERY sidecar with increasing seqs, EVERY content of the index file (missing, rejected and rebuilt, stale, wrong in any entry), every cut, limit, stride and budget, a window read that answers at all answers what the index-free read answers, and that is exactly the kept frames between the window start and the cut (FALSE before the repair: an index right in its last entry and wrong before it was accepted and the window came back short; decide-checked witness). That best_offset_for_seq checks the entry it is about to use, with the failure propagated, before reading its offset, and that nobody else reads an entry's offset, is re-decided on the regenerated source on every run. The loop shapes, fall-back conditions and head check are REGENERATED from the current source on every run and the theorems are stated for the regenerated shape (genShape = current by decide). Tied by the property's own observation on every run: thread histories built through the store API (short; fat: sidecars beyond the first and the largest tail window; thorough: > 10^4 frames), per history an unfaulted round, an index-loss round and three fault rounds (delete / truncate at a byte / garbage / roll back to a saved earlier version on any cache file, half followed by a restart and further appends); nine read capabilities — replay, cut points, compaction status, cursor status, selection status, the context compiled for a run, branch and handoff cut, default-thread recovery — evaluated with caches as found vs continuity_streams/ removed under a 20 s cap; every difference shrunk to a 1-minimal fault set; every capability asked on its own copy of the faulted store (a replay heals the caches for whoever asks next); cursor and selection status also compared with the Lean specification; the real window read over eight kinds of seek-index file (right, missing, an offset moved to another line start or into a line, a seq changed, true entries elsewhere, arbitrary monotonic pairs, rejected by the loader) compared with the Lean model and judged by a model-free oracle. Five defect groups found and repaired (non-terminating / duplicating / partial tail scans; default thread after index loss; unvalidated seek entries; suffix-only full sidecar; cache-only in-flight job lookup), two recorded as known findings (stale prefix of any cache file, suffix-only derived cache files pass the validators).",
+        "level_note": "Lean kernel; windows are counted in frames in the model (byte and event budgets are both monotone; theorems quantify over every first window and maximum); the two tail-scanning status queries and the seek-index window read are modelled — replay, cut points, compaction status, the other two read paths of the compiled context and the lineage cuts are covered by the as-found vs truth comparison (and by C08/C09/C10 on their truth semantics), not by a model of their seven cache formats; ripx recognises the loop shape textually and fails closed.",
         "technique": "Lean 4 proof (termination by a window measure, loop invariants, decide-checked counterexamples for the unrepaired and the faulty-cache cases) + decide over regenerated loop shapes + as-found vs truth differential with fault injection and shrinking",
         "design_ref": "§5 C04",
         "trusted_base": COMMON_TB + [
-            "translator ripx (syn + text): doubling-window loops of continuities.rs, fall-back conditions, scan_tail head check",
-            "hooks: ripd::verif_export::continuities::{append_selection_decided, append_compiled, append_cursor_updated}, session::compile_for_run",
+            "translator ripx (syn + text): doubling-window loops of continuities.rs, fall-back conditions, scan_tail head check; readers of a seek entry's offset and the token order of best_offset_for_seq",
+            "a read that starts inside a frame line never parses as a frame header (assumption of Rip.Model.SeekIndex.linesFrom)",
+            "hooks: ripd::verif_export::continuities::{append_selection_decided, append_compiled, append_cursor_updated, full_sidecar_window_from_seq}, session::compile_for_run",
         ],
         "assumptions": [
-            "known findings: a cache file rolled back to an earlier well-formed version, and a derived cache file lost and recreated by later appends, are trusted by the readers (known_findings.json: C04|*|*prefix-only:*, C04|*|delete:*+appends)",
+            "known findings: a cache file rolled back to an earlier well-formed version, and a derived cache file lost and recreated by later appends, are trusted by the readers (known_findings.json: C04|*|*prefix-only:*, C04|*|delete:comp.*+appends, C04|*|delete:mr.*+appends)",
             "only default-thread recovery is claimed for continuities/index.json loss",
         ],
-        "gen": ["TailLoops"],
+        "gen": ["TailLoops", "SeekUse"],
     },
     "C05": {
         "level_text": "Lean 4 theorems over an executable model of a thread's on-disk state (truth log lines, a body written without its newline, the full sidecar, the messages+runs sidecar) while frames are appended effect by effect, a process death after any number of effects, reopening the log, and the first write after the restart: for EVERY history of acknowledged appends, EVERY further append (small or larger than the writer's buffer, message or not), EVERY crash point and EVERY number of further appends the log replays and is numbered 0,1,2,… without gap or duplicate, every acknowledged append is still where it was, the interrupted append is there at most once, and from the first further append on the thread's sidecar equals the log; a crashed disk always extends the disk before it. The statement is proved FALSE without each of the two repairs (duplicate seq from the sidecar's tail; unparseable merged line after a large frame) — regression witnesses. What the restarted authority's caches look like is characterised exactly: until the thread is written again its sidecar is a prefix at most one frame behind; the messages+runs sidecar is correct unless the crash fell between the sidecar line and the messages+runs line of a message frame, in which case exactly that frame is missing for ever (the two gaps are recorded known findings). EventLog::append's body / newline / flush order under its mutex is re-proved on the regenerated effect order. Tied on every run by crash points on the real code: a callback on the named points (cfg rip_verif) between the file-system effects of the log, the seven cache files, index.json and artifact writes copies the on-disk state; (a) plain histories: the raw state at every point, and the state after restart plus three appends, must equal the model's partialAppend / story; (b) mixed workloads (messages incl. frames larger than the writer buffer, runs, cursor updates, manual and automatic checkpoints with artifacts, branch, handoff, context compile) reopened at every point: validated replay, numbering, acknowledged bytes a prefix, further appends on every thread, and the C04 comparison (caches as found vs removed) before and after them. Two defects found and repaired.",
@@ -331,4 +332,5 @@ HOOK_COMMITS = [
     "9adb383",  # crash points of the append path
     "17947a0",  # read-path markers for the compile input
     "ce397b2",  # yield point before a reader rewrites the continuity sidecar
+    "3123f67",  # export of the full-sidecar window read
 ]
